@@ -443,8 +443,8 @@ class Oracle:
                 self.fail("timeout-without-timeout", "PipeTimeout from a read without timeout")
             if avail > 0:
                 self.fail("timeout-with-data",
-                          "PipeTimeout raised although %d byte(s) were buffered (deadline tested before the "
-                          "buffer after a wake-up)" % avail,
+                          "PipeTimeout raised although %d byte(s) fed earlier were still undelivered (data was "
+                          "available)" % avail,
                           expected=self.fed[len(self.got):][:max(n, 0)], observed="PipeTimeout")
         elif k == "blocked":
             n, t = self.cur_read[tid]
@@ -542,9 +542,10 @@ def gen_op(rng, weights=None):
     return ("setevent",)
 
 
-def gen_programs(rng, nthreads, maxops):
+def gen_programs(rng, nthreads, maxops, bias=False):
     while True:
-        ps = [[gen_op(rng) for _ in range(rng.choice([maxops, maxops, rng.randrange(1, maxops + 1)]))]
+        ps = [[gen_op(rng) for _ in range(rng.choice([maxops, maxops, rng.randrange(1, maxops + 1)]) if bias
+                                          else rng.randrange(1, maxops + 1))]
               for _ in range(nthreads)]
         kinds = {op[0] for p in ps for op in p}
         if "read" in kinds and ("feed" in kinds or "close" in kinds):
@@ -683,15 +684,16 @@ def run(ctx):
 
 def _run(ctx, rng):
     work = Work()
-    cap = 30000 if ctx.thorough else 8000
-    budget = 150000 if ctx.thorough else 30000        # executions spent on enumeration
+    cap = 30000 if ctx.thorough else 3000
+    budget = 150000 if ctx.thorough else 8000         # executions spent on enumeration
     nrandom_sets = 120 if ctx.thorough else 30
     nsample = 5 if ctx.thorough else 1
     for k, programs in enumerate(CURATED):
         check_programs(ctx, programs, cap, rng, work, "curated-%d" % k, nsample)
     for k in range(nrandom_sets):
         nthreads = rng.choice([2, 3, 3])
-        programs = gen_programs(rng, nthreads, 3 if nthreads == 2 or ctx.thorough else rng.choice([2, 3]))
+        programs = gen_programs(rng, nthreads, 3 if nthreads == 2 or ctx.thorough else rng.choice([2, 2, 3]),
+                                bias=ctx.thorough)
         if work.executed < budget:
             check_programs(ctx, programs, cap, rng, work, "random-%dthr" % nthreads, nsample)
     ctx.notes.append("%d program sets, %d enumerated exhaustively (all maximal interleavings); %d schedules executed "
